@@ -630,15 +630,13 @@ fn judge(case: &Case) -> Verdict {
           private_names_deep(&val.get("publicKeyJwk").cloned().unwrap_or(Value::Null), &mut names);
           names.sort();
           names.dedup();
-          if let Some(n) = names.first() {
-            v.v(format!("VerificationMethod::{name}|accepted|private-member-{n}"), format!("{entry}: {text}"));
-          } else if text.contains("SECRET") {
-            v.v(format!("VerificationMethod::{name}|accepted|private-value-in-method"), format!("{entry}: {text}"));
-          }
-          if let MethodData::PublicKeyJwk(k) = m.data() {
-            if !k.is_public() {
-              v.v(format!("VerificationMethod::{name}|accepted|key-not-public"), entry.clone());
-            }
+          let not_public = matches!(m.data(), MethodData::PublicKeyJwk(k) if !k.is_public());
+          if !names.is_empty() || text.contains("SECRET") || not_public {
+            // one key per constructor: which members leak is in the description
+            v.v(
+              format!("VerificationMethod::{name}|accepted|private-key-material"),
+              format!("{entry}: private members {names:?} in the method, key.is_public() = {}: {text}", !not_public),
+            );
           }
         }
       }
